@@ -96,6 +96,27 @@ def evaluate(cases, rep, tier):
                 break
         else:
             encs.append((c, impl[idx].split()[1:]))
+    # deg against the Spec (RFC 5.3.5.2) where the Spec's side conditions hold (v < 2^20, W >= 3)
+    dc = [(idx, c) for idx, c in enumerate(cases) if c.fn == "deg" and c.args[0] < (1 << 20) and c.args[1] >= 3]
+    dspec = C.run_model([C.Case("spec_deg", c.args) for _, c in dc])
+    for (idx, c), sp in zip(dc, dspec):
+        for prof in PROFILES:
+            if C.canon(both[prof][idx]) != C.canon(sp):
+                counter.append({"input": c.impl_line(), "expected": sp, "observed": both[prof][idx], "profile": prof, "oracle": "Spec.Tuple.Deg (RFC 5.3.5.2)"})
+                break
+    # the look-up functions against the RFC snapshot of Table 2 (a sample of K incl. every table size)
+    ks = sorted(set([r[0] for r in table_rows()[0]] + [r[0] - 1 for r in table_rows()[0]] + [0, 1, 56403]))
+    srow = C.run_model([C.Case("spec_row", [k]) for k in ks])
+    got = {}
+    for c, i in zip(cases, impl):
+        if c.fn in ("sys_kprime", "sys_j", "sys_s", "sys_h", "sys_w") and c.args[0] <= 56403:
+            got[(c.fn, c.args[0])] = i
+    for k, sp in zip(ks, srow):
+        t = sp.split()
+        for fn, pos in (("sys_kprime", 1), ("sys_j", 2), ("sys_s", 3), ("sys_h", 4), ("sys_w", 5)):
+            g = got.get((fn, k))
+            if g is not None and t[0] == "1" and g != f"1 {t[pos]}":
+                counter.append({"input": f"{fn} {k}", "expected": f"1 {t[pos]}", "observed": g, "oracle": "RFC 6330 Table 2 (snapshot)"})
     # enc_indices on the implementation's own tuples: must not panic, indices < L, count d + d1
     rows, p1 = table_rows()
     byw = {(w, j): (kp, s, h) for (kp, j, s, h, w) in rows}
